@@ -17,6 +17,8 @@ use std::time::Duration;
 
 pub const HELPER_NAMES: &[&str] = &["curl", "python3", "waagent", "Curl", "cur"];
 pub const UIDS: &[u64] = &[0, 1001, 1002, 1003, 1004];
+/// users with multi-byte names (C13 only)
+pub const WIDE_UIDS: &[u64] = &[1005, 1006];
 
 #[derive(Clone, Copy, Debug, Serialize, Deserialize, Hash, PartialEq, Eq)]
 pub enum DestSel {
@@ -93,7 +95,7 @@ impl Rig {
     /// Enter the namespaces (must be the first thing the process does), start mocks, helpers and the proxy.
     pub fn start(helper_specs: Option<Vec<(String, Vec<String>)>>) -> Result<Rig, String> {
         ns::enter(&ns::Options::default())?;
-        let specs = helper_specs.unwrap_or_else(|| HELPER_NAMES.iter().map(|n| (n.to_string(), vec![])).collect());
+        let specs = helper_specs.unwrap_or_else(|| HELPER_NAMES.iter().map(|n| (n.to_string(), vec!["3600".to_string()])).collect());
         let helpers = Helpers::spawn(&specs)?;
         let mock = Mock::new();
         mock.listen("wireserver", "168.63.129.16:80")?;
